@@ -4,6 +4,8 @@ mod c04;
 mod c05;
 mod c06;
 mod c10;
+mod c11;
+mod worker;
 mod c14;
 mod hookutil;
 mod convert;
@@ -70,6 +72,23 @@ fn real_main(args: Vec<String>) -> i32 {
             }
             0
         }
+        Some("worker") => {
+            // worker <prop> <family> <tier> <from> <to>
+            let prop = args.get(2).cloned().unwrap_or_default();
+            let family = args.get(3).cloned().unwrap_or_default();
+            let tier = if args.get(4).map(|s| s.as_str()) == Some("thorough") { Tier::Thorough } else { Tier::Quick };
+            let from: usize = args.get(5).and_then(|s| s.parse().ok()).unwrap_or(0);
+            let to: usize = args.get(6).and_then(|s| s.parse().ok()).unwrap_or(0);
+            let armed = findings::Armed::from_env();
+            match prop.as_str() {
+                "C11" => worker::child_loop(&c11::Set::new(tier, armed), from, to),
+                _ => {
+                    let _ = family;
+                    eprintln!("unknown worker set");
+                    2
+                }
+            }
+        }
         Some("check") => {
             let prop = args.get(2).cloned().unwrap_or_else(|| usage());
             let tier = match args.get(3).map(|s| s.as_str()) {
@@ -91,6 +110,7 @@ fn real_main(args: Vec<String>) -> i32 {
                 "C06" => c06::run(&ctx, false),
                 "C07" => c06::run(&ctx, true),
                 "C10" => c10::run(&ctx),
+                "C11" => c11::run(&ctx),
                 "C14" => c14::run(&ctx),
                 _ => Err(format!("no check for {}", prop)),
             };
